@@ -6,12 +6,33 @@ NOTES = ('All checks explore the real implementation in /repo (working tree) exh
 ENGINES = [
     {'name': 'E-sched', 'path': 'vt/explore/sched.py', 'serves_properties': ['C20'],
      'kind_free_text': 'stateless schedule explorer: real threads under a baton scheduler, DFS over choice prefixes with a preemption bound, every execution run to completion, deadlock/horizon detection, double replay of failing schedules'},
-    {'name': 'E-enum', 'path': 'vt/astgen.py, vt/par.py, vt/ref/', 'serves_properties': ['C01', 'C02', 'C03', 'C04', 'C05', 'C08', 'C09', 'C11', 'C12', 'C13', 'C14', 'C15', 'C16', 'C17', 'C18'],
+    {'name': 'E-enum', 'path': 'vt/astgen.py, vt/par.py, vt/ref/', 'serves_properties': ['C01', 'C02', 'C03', 'C04', 'C05', 'C06', 'C07', 'C08', 'C09', 'C11', 'C12', 'C13', 'C14', 'C15', 'C16', 'C17', 'C18'],
      'kind_free_text': 'bounded-exhaustive program x data enumerator: all well-typed statements of bounded shape over the live registries x all tables/ledgers of bounded size over a value alphabet, executed on the real implementation and compared with a reference interpreter'},
     {'name': 'E-bfs', 'path': 'vt/explore/bfs.py', 'serves_properties': ['C10', 'C19'],
      'kind_free_text': 'explicit-state breadth-first search over operation histories on the product (real object, reference model) with canonical-state deduplication and closure detection'},
 ]
 CHECKS = {
+    'C06': {
+        'engine': 'E-enum',
+        'technique': 'bounded-exhaustive enumeration of ASTs (complete parent x operand-slot x child matrix, all clause subsets and FROM forms, all literal forms) printed by an independent precedence-ladder printer and re-parsed; differential of the shipped parser against a parser regenerated from the grammar on accepted and rejected texts',
+        'design_ref': 'DESIGN.md section 4, C06',
+        'text': 'The complete depth-2 matrix (30 parent kinds x 54 operand slots x 42 children = 2,268 cells; thorough: depth 3 over 54x54 slot pairs), n-ary AND/OR shapes, every literal spelling in 4-6 '
+                'contexts and all lists of 1..3 literals, 705 identifier cases incl. every reserved word followed by a digit or underscore, all 192 clause subsets, 46 FROM forms, BALANCES/JOURNAL/PRINT forms, '
+                'each printed with minimal and full parentheses in rotating spellings (case, whitespace, comments): parse(print(ast)) == ast. The parser is regenerated from bql.ebnf with '
+                'tatsu.to_python_sourcecode on every run and both parsers must give the same AST or the same rejection (position included) on the printed texts and on 6.6k rejected texts (all token '
+                'sequences of length <= 2 over 50 tokens, single-token edits of 40 statements).',
+        'note': 'Trusted: TatSu code generator, vt/unparse.py (ladder written from the property text). Only ASTs expressible in BQL. In quick, when the regenerated source is byte-identical to parser.py the second parser runs on 74% of the texts (all rejected/literal/identifier texts); thorough parses everything twice.',
+    },
+    'C07': {
+        'engine': 'E-enum',
+        'technique': 'bounded-exhaustive enumeration of text statements (all alias/column/expression target-kind sequences of length 1..4 x hidden-target configurations x spellings x table kinds) against the naming and shape rules of the property',
+        'design_ref': 'DESIGN.md section 4, C07',
+        'text': 'All 120 target-kind sequences of length 1..4 over {alias, bare column, expression} x hidden GROUP BY / HAVING / ORDER BY configurations (0-3 hidden targets, before/after in clause order) with '
+                'expressions printed in 8 parenthesisation x spelling modes; duplicate names; `*` and named targets on 13 table kinds (postings, entries, typed directive tables, accounts, commodities, null '
+                'table, harness tables, sub-queries): description length = number of SELECT targets, every row has that length, name = alias / column name / a slice of the statement text that parses back '
+                'to the target expression, hidden expressions appear nowhere, `*` = the published wildcard columns in declaration order.',
+        'note': 'Trusted: vt/unparse.py. BALANCES/JOURNAL/PIVOT names not generated; duplicate names never combined with positional references.',
+    },
     'C05': {
         'engine': 'E-enum',
         'technique': 'exhaustive enumeration of the operator/function x operand-type matrix, of the product of clause-rule dimensions and of short token sequences / single-token edits, against an independently written reference type checker and an exception-class invariant',
